@@ -251,8 +251,13 @@ impl From<i64> for V2 {
     }
 }
 impl From<f64> for V2 {
+    /// like serde_json, this type has no infinities or NaN: they become its null
     fn from(f: f64) -> Self {
-        V2::N(f)
+        if f.is_finite() {
+            V2::N(f)
+        } else {
+            V2::Nil
+        }
     }
 }
 impl From<Vec<V2>> for V2 {
